@@ -251,6 +251,27 @@ func init() {
 		c.served = append(c.served, natsServed{pattern: strings.Split(pat, "."), handler: args[2]})
 		return nil
 	}
+	// vPublish(nc, subject, data): a message arrives on the bus from another
+	// party: every subscription made through nc.Subscribe whose pattern
+	// matches gets it (synchronously, in subscription order).
+	vIntrinsics["vPublish"] = func(in *Interp, fr *frame, args []Value) Value {
+		c := in.connOf(args[0])
+		subj := args[1].(Str)
+		s, ok := subj.conc()
+		if !ok {
+			in.unsupported("vPublish with symbolic subject")
+		}
+		toks := strings.Split(s, ".")
+		for _, sub := range append([]*natsSub{}, c.subs...) {
+			pat, ok := sub.subject.conc()
+			if !ok || !subjectMatch(strings.Split(pat, "."), toks) {
+				continue
+			}
+			in.callFunction(fr, sub.handler, []Value{in.newNatsMsg(subj, Str{}, args[2].(Slice), args[0])})
+			in.curFrame = fr
+		}
+		return nil
+	}
 	// vGo(f): natively `go f()`; in the engine f runs to completion at once,
 	// its channel operations are queued in program order (see selectOp).
 	vIntrinsics["vGo"] = func(in *Interp, fr *frame, args []Value) Value {
@@ -274,22 +295,21 @@ func (in *Interp) natsMatch(c *natsConn, subj Str) Value {
 	}
 	toks := strings.Split(s, ".")
 	for _, sv := range c.served {
-		ok := true
-		for i, p := range sv.pattern {
-			if p == ">" {
-				break
-			}
-			if i >= len(toks) || (p != "*" && p != toks[i]) {
-				ok = false
-				break
-			}
-			if i == len(sv.pattern)-1 && len(toks) != len(sv.pattern) {
-				ok = false
-			}
-		}
-		if ok {
+		if subjectMatch(sv.pattern, toks) {
 			return sv.handler
 		}
 	}
 	return nil
+}
+
+func subjectMatch(pattern, toks []string) bool {
+	for i, p := range pattern {
+		if p == ">" {
+			return i < len(toks)
+		}
+		if i >= len(toks) || (p != "*" && p != toks[i]) {
+			return false
+		}
+	}
+	return len(toks) == len(pattern)
 }
